@@ -437,7 +437,8 @@ fn interleaved_instances(ctx: &Ctx, rep: &mut Report, r: &mut Rng) {
 /// long runs of inert lines of one kind inside an open group: removing the whole run must
 /// change nothing (an 8- or 16-bit event counter inside the parser would show here)
 fn mass_inert_runs(ctx: &Ctx, rep: &mut Report, r: &mut Rng) {
-    let runs: [usize; 8] = [100, 255, 256, 257, 300, 600, 1100, 66_000];
+    // 2^8, 2^16, 2^17 and 10^5 (+1): counters of 8 / 16 bits, and round limits a maintainer might pick
+    let runs: [usize; 11] = [100, 255, 256, 257, 300, 600, 1100, 65_537, 66_000, 100_001, 131_073];
     let mut item = 0u64;
     for &run in runs.iter() {
         for kind in 0..6u64 {
@@ -446,7 +447,9 @@ fn mass_inert_runs(ctx: &Ctx, rep: &mut Report, r: &mut Rng) {
                 continue;
             }
             item += 1;
-            if run > 2000 && !(ctx.thorough() || kind == 0) {
+            // the long runs: rejected continuations (kind 0) and accepted unfragmented sentences
+            // (kind 4) in the quick tier, every kind in the thorough tier
+            if run > 2000 && !(ctx.thorough() || kind == 0 || kind == 4) {
                 continue;
             }
             let _pin = mon::pin_ctor(r.below(2));
@@ -505,6 +508,68 @@ fn mass_inert_runs(ctx: &Ctx, rep: &mut Report, r: &mut Rng) {
     }
 }
 
+/// very long fragments (std / alloc): an opener and a sequencing-rejected stray whose lengths
+/// together pass 2^16, 2^20 and 2^24 bytes - wherever a heap-backed buffer might be given a bound,
+/// a rejected line must not be what trips it
+fn jumbo_inert(ctx: &Ctx, rep: &mut Report, r: &mut Rng) {
+    if mon::is_noalloc() {
+        return;
+    }
+    let mut item = 7000u64;
+    for th in [1usize << 16, 1 << 20, 1 << 24] {
+        for kind in 0..3u8 {
+            for big in 0..2u8 {
+                if !ctx.mine(item) {
+                    item += 1;
+                    continue;
+                }
+                item += 1;
+                let _pin = mon::pin_ctor(r.below(2));
+                let (l1, l2) = if big == 0 { (th / 2 + th / 16, th / 2 + th / 16) } else { (1000, th) };
+                let id = Some(1u8);
+                let long = |r: &mut Rng, len: usize, tag: u64| {
+                    let mut v = uniq_payload(tag);
+                    v.extend(std::iter::repeat(*r.pick(b"05Ww")).take(len));
+                    v
+                };
+                let opener: Line = (nmea_ref::mk(3, 1, id, &long(r, l1, 1), 0), false);
+                let stray: Line = match kind {
+                    0 => (nmea_ref::mk(2, 2, Some(7), &long(r, l2, 2), 0), false), // foreign id
+                    1 => (nmea_ref::mk(3, 3, id, &long(r, l2, 2), 0), false),      // skips fragment 2
+                    _ => (nmea_ref::mk(9, 5, None, &long(r, l2, 2), 0), false),    // no id, orphan number
+                };
+                let f2: Line = (nmea_ref::mk(3, 2, id, &uniq_payload(3), 0), false);
+                let f3: Line = (nmea_ref::mk(3, 3, id, &uniq_payload(4), 0), false);
+                let with = vec![opener.clone(), stray.clone(), f2.clone(), f3.clone()];
+                let without = vec![opener, f2, f3];
+                let (ow, _) = run_hist(&with);
+                let (oo, _) = run_hist(&without);
+                rep.eval();
+                rep.class(format!("jumbo-inert|2^{}|kind{}|{}", th.trailing_zeros(), kind, if big == 0 { "both-long" } else { "stray-long" }));
+                rep.count("jumbo_inert");
+                if !ow[1].is_err() {
+                    rep.count("jumbo_stray_not_rejected");
+                    continue;
+                }
+                if ow[0] != oo[0] || ow[2] != oo[1] || ow[3] != oo[2] {
+                    let short: Vec<Line> = vec![
+                        (format!("opener 1 of 3, id 1, {} payload characters", l1 + 6).into_bytes(), false),
+                        (format!("sequencing-rejected stray (kind {}), {} payload characters", kind, l2 + 6).into_bytes(), false),
+                        with[2].clone(),
+                        with[3].clone(),
+                    ];
+                    rep.violation(
+                        PID,
+                        "trace-left-by-very-long-rejected-fragment".into(),
+                        format!("a sequencing-rejected fragment of {} characters after an opener of {} characters changes the group: continuation {} vs {}, final {} vs {}", l2 + 6, l1 + 6, ow[2].text().chars().take(60).collect::<String>(), oo[1].text().chars().take(60).collect::<String>(), ow[3].text().chars().take(60).collect::<String>(), oo[2].text().chars().take(60).collect::<String>()),
+                        || mon::replay_history(&short, "jumbo-inert (long payloads abbreviated)"),
+                    );
+                }
+            }
+        }
+    }
+}
+
 pub fn stream(r: &mut Rng, salt: u64) -> Vec<Line> {
     let mut h = Vec::new();
     let groups = r.usize(1, 4);
@@ -534,6 +599,7 @@ pub fn run(ctx: &Ctx, rep: &mut Report) {
     random_histories(ctx, rep, &mut r);
     interleaved_instances(ctx, rep, &mut r);
     mass_inert_runs(ctx, rep, &mut r);
+    jumbo_inert(ctx, rep, &mut r);
     rep.require("removed:Malformed");
     rep.require("removed:BadChecksum");
     rep.require("removed:Sequencing");
